@@ -713,6 +713,132 @@ def stack_consts():
     return out
 
 
+def gen_socket_cert():
+    """C02: disciplines and capacities of the socket layer (socket.rs, socket_api.rs,
+    socket_session.rs, tcp/tcp_session.rs, udp/udp_parsing.rs). Fails closed: every item must match
+    one of the shapes named here."""
+    P = os.path.join(CORE, "protocols")
+    sock = strip_comments(read(os.path.join(P, "socket_api", "socket.rs")))
+    api = strip_comments(read(os.path.join(P, "socket_api.rs")))
+    sess = strip_comments(read(os.path.join(P, "socket_api", "socket_session.rs")))
+    tcps = strip_comments(read(os.path.join(P, "tcp", "tcp_session.rs")))
+    udpp = strip_comments(read(os.path.join(P, "udp", "udp_parsing.rs")))
+    flat = lambda t: re.sub(r"\s+", " ", t)
+
+    def body_of(src, pat, what):
+        m = re.search(pat, src)
+        if not m:
+            raise ExtractError(f"C02: {what} not found")
+        return flat(fn_body(src, m.end() - 1))
+
+    # --- Socket::recv: what each dequeued message is compared with
+    recv = body_of(sock, r"pub\s+async\s+fn\s+recv\s*\(\s*&mut\s+self\s*,\s*bytes\s*:\s*usize\s*\)[^{]*\{", "Socket::recv")
+    wm = re.search(r"while buf\.len\(\) < bytes \{", recv)
+    if not wm:
+        raise ExtractError("C02: Socket::recv: `while buf.len() < bytes` loop not found")
+    loop = recv[wm.start():]
+    head = recv[:wm.start()]
+    if not ("if message.len() <= bytes {" in head and "message.iter().take(bytes)" in head and "message.slice(bytes..)" in head):
+        raise ExtractError("C02: Socket::recv: the stored-remainder part changed shape")
+    old = "if message.len() <= bytes {" in loop and "take(bytes)" in loop and "slice(bytes..)" in loop
+    new = ("let space = bytes - buf.len();" in loop and "if message.len() <= space {" in loop and "take(space)" in loop
+           and "slice(space..)" in loop and "<= bytes" not in loop and "take(bytes)" not in loop)
+    if old == new:
+        raise ExtractError("C02: Socket::recv: cannot classify the comparison in the receive loop")
+    if not ("if buf.is_empty() && self.is_blocking {" in loop and "message_receiver.try_recv()" in loop and "break;" in loop):
+        raise ExtractError("C02: Socket::recv: blocking discipline of the loop changed shape")
+
+    # --- write hand-off: spawned task per write or synchronous
+    ssend = body_of(sock, r"pub\s+fn\s+send\s*\(\s*&self\s*,[^{]*\{", "Socket::send")
+    if not re.search(r"session\s*\.send\(", ssend):
+        raise ExtractError("C02: Socket::send no longer calls session.send")
+    socket_send_spawns = "spawn(" in ssend
+    imp = re.search(r"impl\s+Session\s+for\s+TcpSession\s*\{", tcps)
+    if not imp:
+        raise ExtractError("C02: impl Session for TcpSession not found")
+    tsend = flat(fn_body(tcps, imp.end() - 1))
+    if "Instruction::Outgoing(message)" not in tsend:
+        raise ExtractError("C02: TcpSession::send no longer enqueues Instruction::Outgoing")
+    tcp_send_spawns = "spawn(" in tsend
+    trecv = body_of(tcps, r"pub\s+fn\s+receive\s*\(\s*&self\s*,\s*segment\s*:\s*Segment\s*\)\s*\{", "TcpSession::receive")
+    if "Instruction::Incoming(segment)" not in trecv:
+        raise ExtractError("C02: TcpSession::receive no longer enqueues Instruction::Incoming")
+    tcp_recv_spawns = "spawn(" in trecv
+    ftcps = flat(tcps)
+    mcap = re.search(r"let \(send, mut recv\) = channel\((\d+)\);", ftcps)
+    unb = "let (send, mut recv) = unbounded_channel();" in ftcps
+    if bool(mcap) == unb:
+        raise ExtractError("C02: TcpSession instruction queue: neither channel(<literal>) nor unbounded_channel()")
+    if not unb and not (tcp_send_spawns and tcp_recv_spawns):
+        raise ExtractError("C02: bounded instruction queue with a synchronous enqueue: shape not modelled")
+    fifo = ("recv.try_recv()" in ftcps and "recv.recv()" in ftcps and "Instruction::Outgoing(message) => {" in ftcps and "tcb.send(message);" in ftcps)
+    if not fifo:
+        raise ExtractError("C02: TcpSession task no longer drains one FIFO instruction queue into tcb.send")
+
+    # --- socket channel capacity, try_send, accept replay
+    caps = re.findall(r"mpsc::channel\((u8::MAX\.into\(\)|\d+)\)", flat(api))
+    if len(caps) != 2 or caps[0] != caps[1]:
+        raise ExtractError("C02: socket_api.rs: expected two identical message channel capacities, got %r" % caps)
+    cap = 255 if caps[0] == "u8::MAX.into()" else int(caps[0])
+    if "mpsc::channel(backlog)" not in flat(api):
+        raise ExtractError("C02: listen backlog channel not found")
+    rcv = body_of(sess, r"pub\s+fn\s+receive\s*\(\s*&self\s*,\s*message\s*:\s*Message\s*\)[^{]*\{", "SocketSession::receive")
+    if not ("sock.is_closed()" in rcv and "sock.try_send(message)" in rcv and "self.stored_messages.write().unwrap().push_back(message);" in rcv):
+        raise ExtractError("C02: SocketSession::receive changed shape")
+    rsm = body_of(sess, r"pub\s+fn\s+receive_stored_messages\s*\([^)]*\)[^{]*\{", "SocketSession::receive_stored_messages")
+    if not ("while !queue.is_empty()" in rsm and "sock.try_send(queue.pop_front().unwrap())" in rsm and "return Err(DemuxError::MissingSession);" in rsm):
+        raise ExtractError("C02: SocketSession::receive_stored_messages changed shape")
+    gss = body_of(api, r"fn\s+get_socket_session\s*\(", "SocketAPI::get_socket_session")
+    acc = body_of(sock, r"pub\s+async\s+fn\s+accept\s*\(", "Socket::accept")
+    if "let session_map = self.socket_sessions.write().unwrap();" not in gss or "*session.upstream.write().unwrap() = Some(sender);" not in gss:
+        raise ExtractError("C02: get_socket_session no longer activates the channel under the sessions write lock")
+    in_gss = "receive_stored_messages()" in gss
+    in_acc = "receive_stored_messages()" in acc
+    if in_gss == in_acc:
+        raise ExtractError("C02: cannot classify where accept() replays the stored messages")
+    if in_gss and not (gss.index("*session.upstream.write().unwrap() = Some(sender);") < gss.index("receive_stored_messages()")):
+        raise ExtractError("C02: replay precedes activation in get_socket_session: shape not modelled")
+    if in_acc and not (acc.index("get_socket_session(") < acc.index("receive_stored_messages()")):
+        raise ExtractError("C02: accept(): replay precedes get_socket_session")
+    dm = body_of(api, r"fn\s+demux\s*\(", "SocketAPI::demux")
+    # demux holds the sessions READ lock while SocketSession::receive runs (so a replay under the
+    # WRITE lock excludes it)
+    demux_under_read = "match self.socket_sessions.read().unwrap().entry(identifier) { Entry::Occupied(entry) => entry.get().receive(message)?," in dm
+    lookup = ("let any_identifier = Endpoint::new(Ipv4Address::CURRENT_NETWORK, identifier.local.port);" in dm
+              and "self.listen_bindings.get(&identifier.local)" in dm and "self.listen_bindings.get(&any_identifier)" in dm
+              and dm.index("self.listen_bindings.get(&identifier.local)") < dm.index("self.listen_bindings.get(&any_identifier)")
+              and "session.stored_messages.write().unwrap().push_back(message);" in dm
+              and "sender.try_send(identifier.remote)" in dm
+              and dm.index("sender.try_send(identifier.remote)") < dm.index("entry.insert(session);"))
+    mh = re.search(r"const HEADER_OCTETS: u16 = (\d+);", udpp)
+    if not mh:
+        raise ExtractError("C02: udp_parsing.rs HEADER_OCTETS not found")
+    b = lambda x: "true" if x else "false"
+    lines = ["-- GENERATED from /repo sources by tools/extract.py on every check; do not edit",
+             "namespace Elvis.Gen",
+             "/-- Socket::recv compares a dequeued message with the space left (`bytes - buf.len()`), not with `bytes` -/",
+             f"def recvComparesWithRemaining : Bool := {b(new)}",
+             "/-- Socket::send hands the write to the session inside a spawned task -/",
+             f"def socketSendSpawns : Bool := {b(socket_send_spawns)}",
+             "/-- TcpSession::send enqueues the Outgoing instruction inside a spawned task -/",
+             f"def tcpSessionSendSpawns : Bool := {b(tcp_send_spawns)}",
+             "/-- TcpSession::receive enqueues the Incoming instruction inside a spawned task -/",
+             f"def tcpSessionReceiveSpawns : Bool := {b(tcp_recv_spawns)}",
+             "/-- capacity of the per-session instruction queue (`none` = unbounded_channel) -/",
+             f"def instructionQueueCapacity : Option Nat := {'none' if unb else 'some ' + mcap.group(1)}",
+             "/-- capacity of the mpsc channel between a SocketSession and its Socket -/",
+             f"def socketChannelCapacity : Nat := {cap}",
+             "/-- accept(): the stored messages are replayed inside get_socket_session, under the sessions write lock -/",
+             f"def acceptReplayUnderLock : Bool := {b(in_gss)}",
+             "/-- SocketAPI::demux runs SocketSession::receive while holding the sessions read lock -/",
+             f"def demuxReceivesUnderReadLock : Bool := {b(demux_under_read)}",
+             "/-- SocketAPI::demux: exact 4-tuple, else listen binding exact-then-wildcard, store + backlog try_send before insert -/",
+             f"def demuxLookupShape : Bool := {b(lookup)}",
+             f"def udpHeaderOctets : Nat := {mh.group(1)}",
+             "end Elvis.Gen", ""]
+    write_if_changed("SocketCert.lean", "\n".join(lines))
+
+
 def main():
     check_message_immutability()
     gen_sim_cert()
@@ -727,6 +853,7 @@ def main():
     consts += ["/-- reassembly/segment.rs `TLB` (timer lower bound, seconds) -/", f"def TLB : Nat := {tlb}"]
     consts += stack_consts()
     consts += ["end Elvis.Gen", ""]
+    gen_socket_cert()
     write_if_changed("Consts.lean", "\n".join(consts))
 
 
